@@ -26,9 +26,12 @@ CLAIMED = {
             'list with ghost absolute indices): consecutive canonical segments with the drift-corrected last duration, '
             'gapless across any number of loops; lemmas: canonical contiguity, $Time$ exactness, served start '
             'within half a segment of the $Number$ time, source position = start modulo the reference duration, cross-track '
-            'alignment under divisibility (drift otherwise: known finding).',
-            'Trusted: pyvc encoding; z3/cvc5. The handler lines that apply origin_time / sequence_number to the MP4 are not '
-            'under contract (evidence not_covered).',
+            'alignment under divisibility (drift otherwise: known finding); the handler MediaRequestBase.generate_media_segment, '
+            'checked against the index function\'s contract at its call site: 404 exactly where the index refuses, otherwise the '
+            'fragment the index names is loaded, mfhd.sequence_number is the requested / computed number and tfdt is the stored '
+            '(or, when the file has none, prefix-sum synthesised) decode time plus the loop origin.',
+            'Trusted: pyvc encoding; z3/cvc5. In the handler contract fragment loading / encoding, AdaptationSet, DashTiming '
+            'construction and Flask are abstract; region: no Range header, no inband events, clear media.',
             'contract-based deductive verification (AST->VC generator, z3 + cvc5), native replay of counter-models'),
 }
 
@@ -123,7 +126,11 @@ CLAIMED['C16'] = (
     'Reduced scope: for every function under contract (event boxes, buffered reader, byte ranges, live/vod segment index, '
     'timeline, live timing) the exception-freedom obligations (no exception other than the declared ValueError that handlers '
     'map to 4xx: division, index, None, assert, unpack, key errors) and the termination obligations (loop variants) are '
-    'discharged for all inputs satisfying the stated preconditions; preconditions no caller establishes are known findings.',
+    'discharged for all inputs satisfying the stated preconditions; preconditions no caller establishes are known findings. '
+    'Synthetic errors: the per-session failure counter, check_for_synthetic_http_error / _manifest_error and '
+    'calculate_injected_error_segments are proved to fire exactly for the addressed segment / update / time window with the asked '
+    'code, failureCount times, then serve once and clear the counter; the media handlers map index refusals to 404. Bounded '
+    '(labelled): DRM option names are refused or accepted without assertion.',
     'Trusted: pyvc encoding. Router, uploads, corrupt MP4 input, error injection counters and all Flask handlers are not covered; '
     'preconditions such as event interval >= 1 are not established by option parsing (known findings).',
     'contract-based deductive verification: safety and termination obligations of the functions under contract')
@@ -135,9 +142,11 @@ CLAIMED['C12'] = (
     'of the media, origin time = minus the start of the segment nearest the offset; create_all_vod_periods lists all '
     'period definitions contiguously from 0 with sum = total; create_all_live_periods lists consecutive repetitions '
     'contiguously, covering [firstAvailableTime, elapsedTime], with (definition, loop) pairs - hence ids - pairwise distinct, '
-    'and terminates; lemma: served decode times start at minus the loop origin and are gapless.',
+    'and terminates; lemma: served decode times start at minus the loop origin and are gapless; the media handler with a '
+    'ServeMpsMedia index ($Number$ requests) serves the fragment, number and decode time that contract names.',
     'Trusted: pyvc encoding; create_period / DashTiming / total_duration abstract (durations >= 1 us, total = their sum); '
-    'floats as exact rationals. Region: requested number >= startNumber (known finding otherwise). Payload identity, routing '
+    'floats as exact rationals. Region: requested number >= startNumber (known finding otherwise); every $Time$-addressed period '
+    'request fails an assertion (known finding). Payload identity, routing '
     'and templates not covered.',
     'contract-based deductive verification (AST->VC generator, z3 + cvc5), native replay by source extraction')
 
@@ -146,7 +155,8 @@ CLAIMED['C11'] = (
     'Reduced scope. Proof for all 16-byte key ids and all seed bytes: hex_to_le_guid is RFC 4122 bytes_le (raw and textual '
     'form), generate_content_key equals the published PlayReady key-seed algorithm (SHA-256 as an uninterpreted function of '
     'its input bytes, seed truncated to 30 bytes, length checks raise ValueError), generate_checksum is the first 8 bytes of '
-    'AES-ECB(key, bytes_le(kid)); the pssh box (system id, version-1 key-id list, data) encodes and parses back identically '
+    'AES-ECB(key, bytes_le(kid)); generate_wrmheader hands the template the default key id (bytes_le), default key, its checksum, '
+    'the per-key list (kid, checksum, algorithm) and the template of the header version; the pssh box (system id, version-1 key-id list, data) encodes and parses back identically '
     'for 0-3 key ids with and without data.',
     'Trusted: byte-string model (bit-vector lists), SHA-256 / AES-ECB uninterpreted; byte trace for the pssh box. Not covered: WRMHEADER XML and its '
     're-parse, PRO framing, ClearKey endpoint, ContentProtection elements (see evidence not_covered).',
@@ -172,7 +182,9 @@ CLAIMED['C03'] = (
     'moof.size + mdat.header_size (the first payload byte), other flags unchanged; after '
     'SampleAuxiliaryInformationOffsetsBox.post_encode the single offset is senc.position + first sample offset - base data '
     'offset (moof position when the tfhd has none), unless the saio bug-compatibility option is set, in which case it is '
-    'left as it was.',
+    'left as it was; in the handler, tfhd.base_data_offset is cleared (to be recomputed) exactly when an emsg box goes in front '
+    'of the moof or the DRM hook modified the traf, saio.offsets exactly when the traf was modified, emsg boxes sit directly '
+    'before the moof.',
     'Trusted: pyvc encoding; the box tree navigation (find_atom / find_peer / find_child) and the re-encode calls are abstract; '
     'region: base data offset not behind the payload (the code asserts). Payload byte identity, size nesting, sample-size sums, '
     'PIFF / emsg insertion and the handler composition are not covered.',
